@@ -195,7 +195,9 @@ def drive(sc: dict):
     # -- the BEST successful member is infinitely good (it lies outside the tail, so nothing that is reported changes)
     succ = [i for i in range(sc["n"]) if not sc["failed"][i]]
     fl_ = sc["fl"]
-    if len(succ) >= 2 and fl_ != "eq" and sc["k"] * len(succ) <= sc["D"] * (len(succ) - 1) and not sc.get("ulp"):
+    # (one whole member lies between the tail and the best one: at p*n = n-1 the member just outside the tail may carry a weight
+    #  of one rounding error instead of exactly zero, which an infinite value would blow up)
+    if len(succ) >= 3 and fl_ != "eq" and sc["k"] * len(succ) <= sc["D"] * (len(succ) - 2) and not sc.get("ulp"):
         v = np.array(sc["val"], dtype=np.float64)
         o2 = np.array(sc["o2"], dtype=np.float64)
         key = v + 2.0 * o2 if sc["multi"] else (-v if fl_ == "objneg" else v)
